@@ -165,7 +165,9 @@ class C06(Check):
         return {"signed_by": PARENTS, "corruptions": [
             "msg-bit", "sig-bit", "tweak-bit", "key-bit(parent re-signed)", "sig-swap", "stranger-key",
             "other-hierarchy-key", "tweak-declared-not-used", "tweak-used-not-declared", "other-tweak",
-            "double-sha256", "high-s", "padded-der", "wrong-root", "negated-root", "compressed-root"]}
+            "double-sha256", "high-s", "padded-der", "wrong-root", "negated-root", "compressed-root", "hybrid-root",
+            "key-compressed", "key-hybrid", "certifier-not-a-key",
+            "hex spellings of every field of the genuine chain: " + ", ".join(G.HEX_SPELLINGS)]}
 
     def cases(self):
         cs = []
@@ -274,6 +276,7 @@ class C06(Check):
         # root variants
         self.evaluate(base, w.pub("stranger"), "wrong-root", stats, vs)
         self.evaluate(base, w.pub("root", compressed=True), "compressed-root", stats, vs)
+        self.evaluate(base, G.k1_hybrid(w.pub("root")), "hybrid-root", stats, vs)
         neg = bytearray(w.pub("root", compressed=True))
         neg[0] ^= 1
         self.evaluate(base, bytes(neg), "negated-root", stats, vs)
@@ -290,6 +293,16 @@ class C06(Check):
         def run(doc, label):
             self.evaluate(doc, root, label, stats, vs)
 
+        # every hex field of the genuine chain in the other spellings the loader accepts for the same
+        # bytes: same verdicts, byte-equal values
+        for p in range(len(path)):
+            for fld in ("message", "signature", "tweak"):
+                if fld in base["elements"][p]:
+                    for sp, fn in G.HEX_SPELLINGS.items():
+                        exp = self.evaluate(variant(p, **{fld: fn(base["elements"][p][fld])}), root,
+                                            "spelling:" + fld, stats, vs)
+                        if exp[path[-1]][0] != R.OK:
+                            raise HarnessError("reference walk is sensitive to hex spelling %s" % sp)
         for p, name in enumerate(path):
             e = base["elements"][p]
             signer_key = "root" if p == 0 else path[p - 1]
@@ -331,6 +344,12 @@ class C06(Check):
                 nm = pmsg[:koff] + w.pub(pname, compressed=True)
                 run(variant(p - 1, message=nm.hex(), signature=w.sign(psigner, ptw, nm).hex()),
                     "key-compressed")
+                nm = pmsg[:koff] + G.k1_hybrid(w.pub(pname))
+                run(variant(p - 1, message=nm.hex(), signature=w.sign(psigner, ptw, nm).hex()),
+                    "key-hybrid")
+                nm = pmsg[:koff] + bytes([13 - G.k1_hybrid(w.pub(pname))[0]]) + w.pub(pname)[1:]
+                run(variant(p - 1, message=nm.hex(), signature=w.sign(psigner, ptw, nm).hex()),
+                    "key-hybrid-wrong-parity")
                 # parent correctly signed, but what it advertises is not a key
                 pub = w.pub(pname)
                 notkeys = [pmsg[:koff] + b"\x05" + pub[1:], pmsg[:koff] + pub[1:],
